@@ -21,6 +21,7 @@ fn main() {
         "C04" => c04::run(&tier),
         "C05" => c05::run(&tier),
         "C06" => c06::run(&tier),
+        "C07" => c07::run(&tier),
         _ => {
             eprintln!("unknown property {}", id);
             2
